@@ -90,7 +90,7 @@ type logEntry struct {
 	retTypes []types.Type
 }
 
-func (vc *FuncVC) logCall(w *Watch, recv *Term, args []Term, argTypes []types.Type) logEntry {
+func (vc *FuncVC) logCall(w *Watch, recv *Term, args []Term, argTypes []types.Type, argVals ...ssa.Value) logEntry {
 	L := w.Label
 	cntC := vc.logComp("", L, "cnt", "")
 	cnt := vc.cur.get(cntC)
@@ -118,6 +118,24 @@ func (vc *FuncVC) logCall(w *Watch, recv *Term, args []Term, argTypes []types.Ty
 		if i < len(argTypes) {
 			vc.logTypes[vc.logComp("", L, fmt.Sprintf("a%d", i), a.Sort)] = argTypes[i]
 		}
+		// variadic argument built from a literal list: log the elements as passed
+		if i < len(argVals) {
+			if arr, n, elem := varargsArray(argVals[i]); arr != nil {
+				ref := vc.val(arr).T
+				for j := 0; j < n; j++ {
+					var v Term
+					if isStruct(elem) {
+						v = vc.loadStruct(vc.cur, elem, vc.elemRef(ref, IntLit(int64(j))), "")
+					} else {
+						es := vc.sortOf(elem)
+						v = Select(Select(vc.cur.get(vc.elemComp(elem)), ref, arraySort(SInt, es)), IntLit(int64(j)), es)
+					}
+					c := vc.logComp("", L, fmt.Sprintf("a%d_%d", i, j), v.Sort)
+					vc.logTypes[c] = elem
+					vc.cur = vc.cur.set(c, Store(vc.cur.get(c), tag, v))
+				}
+			}
+		}
 	}
 	return logEntry{w: w, tag: tag}
 }
@@ -138,6 +156,24 @@ func (vc *FuncVC) logReturn(le logEntry, rets []Term) {
 func (vc *FuncVC) preRegisterLogs() {
 	for _, b := range vc.Fn.Blocks {
 		for _, in := range b.Instrs {
+			if mc, ok := in.(*ssa.MakeClosure); ok {
+				fn := mc.Fn.(*ssa.Function)
+				for _, w := range vc.watches {
+					pk, pn := splitWord(w.Pattern)
+					if pk != "closure" || !(pn == fn.String() || pn == vc.P.shortName(fn.String()) || qualify(vc.C.Pkg, pn) == fn.String()) {
+						continue
+					}
+					for i, b := range mc.Bindings {
+						comp := vc.logComp("", w.Label, fmt.Sprintf("a%d", i), SInt)
+						vc.logTypes[comp] = b.Type()
+					}
+					vc.closureOf[w.Label] = fn
+					comp := vc.logComp("", w.Label, "r0", SInt)
+					vc.logTypes[comp] = mc.Type()
+					vc.logComp("", w.Label, "time", SInt)
+				}
+				continue
+			}
 			ci, ok := in.(ssa.CallInstruction)
 			if !ok {
 				continue
@@ -157,6 +193,12 @@ func (vc *FuncVC) preRegisterLogs() {
 				for i, a := range c.Args {
 					comp := vc.logComp("", w.Label, fmt.Sprintf("a%d", i), vc.sortOf(a.Type()))
 					vc.logTypes[comp] = a.Type()
+					if arr, n, elem := varargsArray(a); arr != nil {
+						for j := 0; j < n; j++ {
+							cj := vc.logComp("", w.Label, fmt.Sprintf("a%d_%d", i, j), vc.sortOf(elem))
+							vc.logTypes[cj] = elem
+						}
+					}
 				}
 				sig := c.Signature()
 				if fn != nil {
@@ -169,6 +211,27 @@ func (vc *FuncVC) preRegisterLogs() {
 				vc.logComp("", w.Label, "time", SInt)
 			}
 		}
+	}
+}
+
+// logClosure records the creation of a closure for `watch L = closure Outer$N`:
+// arguments are the captured cells (pointers), the result is the closure value.
+func (vc *FuncVC) logClosure(x *ssa.MakeClosure, t Term) {
+	fn := x.Fn.(*ssa.Function)
+	for _, w := range vc.watches {
+		pk, pn := splitWord(w.Pattern)
+		if pk != "closure" || !(pn == fn.String() || pn == vc.P.shortName(fn.String()) || qualify(vc.C.Pkg, pn) == fn.String()) {
+			continue
+		}
+		var args []Term
+		var ats []types.Type
+		for _, b := range x.Bindings {
+			args = append(args, vc.term(b))
+			ats = append(ats, b.Type())
+		}
+		le := vc.logCall(w, nil, args, ats)
+		le.retTypes = []types.Type{x.Type()}
+		vc.logReturn(le, []Term{t})
 	}
 }
 
@@ -237,7 +300,7 @@ func (vc *FuncVC) execCall(in ssa.Instruction, c *ssa.CallCommon, res ssa.Value)
 			for _, a := range c.Args {
 				ats = append(ats, a.Type())
 			}
-			entries = append(entries, vc.logCall(w, recv, args, ats))
+			entries = append(entries, vc.logCall(w, recv, args, ats, c.Args...))
 		}
 	}
 	var result *Val
@@ -1240,4 +1303,21 @@ func (vc *FuncVC) designatorComps(con *Contract, sig *types.Signature, c *ssa.Ca
 		}
 	}
 	return comps, false
+}
+
+// varargsArray recognises `slice (new [N]T (varargs))[:]` and returns the array allocation.
+func varargsArray(v ssa.Value) (*ssa.Alloc, int, types.Type) {
+	sl, ok := v.(*ssa.Slice)
+	if !ok || sl.Low != nil || sl.High != nil {
+		return nil, 0, nil
+	}
+	a, ok := sl.X.(*ssa.Alloc)
+	if !ok {
+		return nil, 0, nil
+	}
+	at, ok := a.Type().Underlying().(*types.Pointer).Elem().Underlying().(*types.Array)
+	if !ok || at.Len() > 8 {
+		return nil, 0, nil
+	}
+	return a, int(at.Len()), at.Elem()
 }
